@@ -21,8 +21,7 @@ Definition call_of (x : jcall) : gen_call :=
 (* the layout as this call sees it: depth of the core, and whether the core lies in this client's directory *)
 Definition layout_of (pr : project) (x : jcall) : layout :=
   {| core_depth := length (p_core pr);
-     core_inside_client := if under (j_out x) (p_core pr) then Some (dotted (j_out x)) else None;
-     core_gap := under (j_out x) (p_core pr) && Nat.leb (length (j_out x) + 2) (length (p_core pr)) |}.
+     core_inside_client := if under (j_out x) (p_core pr) then Some (dotted (j_out x)) else None |}.
 
 Definition jstate := (fs * world)%type.
 
